@@ -19,7 +19,7 @@ type c16entry struct {
 
 func c16healths(kind string) []string {
 	switch kind {
-	case "udp":
+	case "udp", "udp+pass":
 		return []string{"healthy", "silent", "insecure"}
 	case "unix":
 		return []string{"healthy", "refused", "silent", "status-error", "insecure", "stalls-in-starttls", "silent-after-announce"}
@@ -38,7 +38,7 @@ func startScripted(r *Run, e *c16entry) {
 	if e.Kind == "unix" {
 		network, addr = "unix", fmt.Sprintf("sa-%d.sock", e.Port)
 	}
-	if e.Kind == "udp" {
+	if isUDPKind(e.Kind) {
 		return // nobody is bound: datagrams vanish
 	}
 	r.Net.SourceIP = ServerIP
@@ -102,7 +102,7 @@ func scenarioC16(r *Run) {
 	c := r.Ch
 	secure := c.Chance(1, 3, "client-requires-security")
 	ne := 1 + c.Pick(4, "entries")
-	kinds := []string{"tcp", "tcp", "unix", "tcp+tls", "ws", "udp"}
+	kinds := []string{"tcp", "tcp", "unix", "tcp+tls", "ws", "udp", "udp+pass"}
 	entries := make([]*c16entry, ne)
 	cfg := WorldCfg{Carrier: "tcp", ClientSecure: secure, ClientInsecure: true}
 	firstOK := -1
@@ -126,7 +126,7 @@ func scenarioC16(r *Run) {
 		switch e.Kind {
 		case "unix":
 			e.Key = fmt.Sprintf("unix|sa-%d.sock", e.Port)
-		case "udp":
+		case "udp", "udp+pass":
 			e.Key = fmt.Sprintf("udp|%s:%d", ServerIP, e.Port)
 		default:
 			e.Key = fmt.Sprintf("tcp|%s:%d", ServerIP, e.Port)
@@ -278,7 +278,7 @@ func scenarioC16(r *Run) {
 	sig := fmt.Sprintf("before_first_healthy=%s forward=%s", failingBefore(entries, firstOK), forward)
 	dials := func(e *c16entry) int {
 		cnt := 0
-		if e.Kind == "udp" {
+		if isUDPKind(e.Kind) {
 			for _, s := range r.Net.Socks() {
 				if s.Key() == e.Key && s.Recv > 0 {
 					cnt = 1
@@ -355,7 +355,7 @@ func scenarioC16(r *Run) {
 	// ---- session loss, then new local connections
 	loss := []string{"none", "carrier-reset", "silent-loss", "server-restart", "carrier-timeout"}[c.Pick(5, "session-loss")]
 	sel := entries[firstOK]
-	if sel.Kind == "udp" && loss != "none" {
+	if isUDPKind(sel.Kind) && loss != "none" {
 		loss = "server-restart"
 	}
 	r.Info["session_loss"] = loss
@@ -404,7 +404,7 @@ func scenarioC16(r *Run) {
 			return
 		}
 		r.Count("fault_server_restart")
-		if sel.Kind == "udp" {
+		if isUDPKind(sel.Kind) {
 			r.RunFor(95 * time.Second) // KCP has no reset: noticed by keep-alive only
 		} else {
 			r.RunFor(time.Duration(1+c.Pick(20, "wait-s")) * time.Second)
@@ -437,7 +437,7 @@ func scenarioC16(r *Run) {
 		r.FailSig("slow-reconnect", sig2, "re-establishing after %s took %v", loss, took)
 		return
 	}
-	if sel.Kind != "udp" && dials(sel) != before+1 {
+	if !isUDPKind(sel.Kind) && dials(sel) != before+1 {
 		r.FailSig("reconnect-count", sig2, "after %s: %d new physical connections to the selected upstream (expected exactly 1)", loss, dials(sel)-before)
 		return
 	}
@@ -457,3 +457,5 @@ func failingBefore(entries []*c16entry, firstOK int) string {
 	}
 	return strings.Join(hs, ",")
 }
+
+func isUDPKind(k string) bool { return k == "udp" || k == "udp+pass" }
